@@ -1,56 +1,270 @@
-"""Translator items for C05: the dense-selection decision of LazyIndexer.__getitem__.
+"""Translator items for C05 (katdal/lazy_indexer.py LazyTransform / LazyIndexer, katdal/concatdata.py
+ConcatenatedLazyIndexer), fail-closed.
 
-The source must contain exactly one test of the shape
-    len(dim_keep) > <float> * dim_len and len(segments) > <int>
-inside LazyIndexer.__getitem__; the float is emitted as an exact fraction num/den and the
-integer as the minimum number of segments.  Any other shape is a broken tie."""
+Every function the model mirrors is matched, statement by statement, against a template (c05_templates.py): same
+statements in the same order, same operators, constants, default arguments.  The small decision expressions of those
+functions are holes of the templates; what stands there in the source is translated into Gallina definitions
+(integer / boolean expressions: + - * %, comparisons incl. chains, and / or / not, conditional expressions, np.where)
+that the model USES:
+
+  lazy_diff_rejected d              np.any(np.diff(dim_keep) <= 0)          -> LazyIdx.sorted_ok
+  lazy_out_of_range first last n    dim_keep[0] < 0 or dim_keep[-1] >= n    -> LazyIdx.adv_plan
+  lazy_jump d                       np.diff(dim_keep) > 1                   -> LazyIdx.runs
+  lazy_dense_num/den/min_segments   len(dim_keep) > 0.2 * dim_len and len(segments) > 1 -> LazyIdx.dense
+  lazy_dtype_step declared dtype    transform.dtype if ... is not None else dtype       -> LazyIdx.tr_dtype
+  concat_part_kept len0             indexer.shape[0] (truthiness)           -> ConcatIdx.c_mk
+  concat_searchsorted_before, concat_find_indexer       searchsorted(index, side='right') - 1 -> ConcatIdx.find_indexer
+  concat_norm_scalar, concat_scalar_rejected, concat_local_scalar           -> ConcatIdx.c_head (scalar head)
+  concat_stride_rejected, concat_first_indexer, concat_end_indexer, concat_chunk_start, concat_chunk_stop,
+  concat_chunk_skipped                                                      -> ConcatIdx.c_head (slice head)
+  concat_norm_list, concat_local_list                                       -> ConcatIdx.c_head (integer-sequence head)
+
+An edit of the source therefore either changes a generated definition (the theorems are re-checked against it) or is
+refused here (broken tie)."""
 import ast
 from fractions import Fraction
 
 from vh.translate import TranslateError, _parse, _class, _func
+from vh.items import c05_templates as T
 
 
-def _is_len_of(node, name):
-    return (isinstance(node, ast.Call) and isinstance(node.func, ast.Name) and node.func.id == 'len'
-            and len(node.args) == 1 and isinstance(node.args[0], ast.Name) and node.args[0].id == name)
+# ----------------------------------------------------------------------------- template matching
+
+def _strip_doc(fn):
+    if fn.body and isinstance(fn.body[0], ast.Expr) and isinstance(fn.body[0].value, ast.Constant) \
+            and isinstance(fn.body[0].value.value, str):
+        fn.body = fn.body[1:]
+    return fn
 
 
-def item_lazy_threshold(repo, out):
-    rel = 'katdal/lazy_indexer.py'
+def _unify(t, a, holes, where):
+    """structural equality of template node t and actual node a; Name('__Hn__') binds, Name('__ANY__') matches anything"""
+    if isinstance(t, ast.Name) and t.id.startswith('__') and t.id.endswith('__'):
+        if t.id != '__ANY__':
+            if t.id in holes:
+                raise TranslateError('%s: hole %s used twice' % (where, t.id))
+            holes[t.id] = a
+        return
+    if type(t) is not type(a):
+        raise TranslateError('%s: expected `%s`, found `%s`' % (where, _short(t), _short(a)))
+    for f in t._fields:
+        tv, av = getattr(t, f, None), getattr(a, f, None)
+        if isinstance(tv, list):
+            if not isinstance(av, list) or len(tv) != len(av):
+                raise TranslateError('%s: expected %d item(s) in `%s`, found `%s`'
+                                     % (where, len(tv), _short(t), _short(a)))
+            for x, y in zip(tv, av):
+                _unify_any(x, y, holes, where)
+        else:
+            _unify_any(tv, av, holes, where)
+
+
+def _unify_any(x, y, holes, where):
+    if isinstance(x, ast.AST):
+        if not isinstance(y, ast.AST):
+            raise TranslateError('%s: expected `%s`' % (where, _short(x)))
+        _unify(x, y, holes, where)
+    elif x != y or type(x) is not type(y):
+        raise TranslateError('%s: expected %r, found %r' % (where, x, y))
+
+
+def _short(n):
+    try:
+        s = ast.unparse(n)
+    except Exception:
+        s = ast.dump(n)
+    s = ' '.join(s.split())
+    return s[:140]
+
+
+def _match(repo, rel, cls, name, template):
     tree = _parse(repo, rel)
-    fn = _func(_class(tree, 'LazyIndexer', rel), '__getitem__', rel)
-    found = []
-    for n in ast.walk(fn):
-        if isinstance(n, ast.If) and isinstance(n.test, ast.BoolOp) and isinstance(n.test.op, ast.And) \
-                and len(n.test.values) == 2:
-            a, b = n.test.values
-            if not (isinstance(a, ast.Compare) and len(a.ops) == 1 and _is_len_of(a.left, 'dim_keep')):
-                continue
-            found.append((a, b))
-    if len(found) != 1:
-        raise TranslateError('%s: LazyIndexer.__getitem__: expected exactly one dense-selection test, found %d'
-                             % (rel, len(found)))
-    a, b = found[0]
+    fn = _strip_doc(_func(_class(tree, cls, rel), name, rel))
+    tn = [n for n in ast.parse(template).body if isinstance(n, ast.FunctionDef)]
+    holes = {}
+    _unify(tn[0], fn, holes, '%s:%s.%s' % (rel, cls, name))
+    return holes
+
+
+# ----------------------------------------------------------------------------- expressions -> Gallina
+
+_CMP = {ast.Lt: lambda a, b: '(%s <? %s)' % (a, b), ast.LtE: lambda a, b: '(%s <=? %s)' % (a, b),
+        ast.Gt: lambda a, b: '(%s <? %s)' % (b, a), ast.GtE: lambda a, b: '(%s <=? %s)' % (b, a),
+        ast.Eq: lambda a, b: '(%s =? %s)' % (a, b), ast.NotEq: lambda a, b: 'negb (%s =? %s)' % (a, b)}
+_BIN = {ast.Add: '+', ast.Sub: '-', ast.Mult: '*', ast.Mod: 'mod'}
+
+
+def _truthy(e):
+    txt, typ = e
+    return txt if typ == 'bool' else 'negb (%s =? 0)' % txt
+
+
+def _expr(node, env, where):
+    """(Gallina text, 'Z' | 'bool') of a Python integer / boolean expression over the atoms of env"""
+    key = ast.unparse(node)
+    if key in env:
+        return env[key]
+    if isinstance(node, ast.Constant) and isinstance(node.value, int) and not isinstance(node.value, bool):
+        return ('(%d)' % node.value, 'Z')
+    if isinstance(node, ast.UnaryOp) and isinstance(node.op, ast.USub):
+        t, ty = _expr(node.operand, env, where)
+        if ty == 'Z':
+            return ('(- %s)' % t, 'Z')
+    if isinstance(node, ast.UnaryOp) and isinstance(node.op, ast.Not):
+        return ('negb %s' % _paren(_truthy(_expr(node.operand, env, where))), 'bool')
+    if isinstance(node, ast.BinOp) and type(node.op) in _BIN:
+        (a, ta), (b, tb) = _expr(node.left, env, where), _expr(node.right, env, where)
+        if ta == tb == 'Z':
+            return ('(%s %s %s)' % (a, _BIN[type(node.op)], b), 'Z')
+    if isinstance(node, ast.Compare) and all(type(o) in _CMP for o in node.ops):
+        terms = [_expr(x, env, where) for x in [node.left] + node.comparators]
+        if all(t[1] == 'Z' for t in terms):
+            parts = [_CMP[type(o)](terms[i][0], terms[i + 1][0]) for i, o in enumerate(node.ops)]
+            return (parts[0] if len(parts) == 1 else '(' + ' && '.join(parts) + ')', 'bool')
+    if isinstance(node, ast.BoolOp):
+        parts = [_paren(_truthy(_expr(v, env, where))) for v in node.values]
+        return ('(' + (' && ' if isinstance(node.op, ast.And) else ' || ').join(parts) + ')', 'bool')
+    if isinstance(node, ast.IfExp):
+        c = _truthy(_expr(node.test, env, where))
+        (a, ta), (b, tb) = _expr(node.body, env, where), _expr(node.orelse, env, where)
+        if ta == tb:
+            return ('(if %s then %s else %s)' % (c, a, b), ta)
+    if isinstance(node, ast.Call) and ast.unparse(node.func) == 'np.where' and len(node.args) == 3 and not node.keywords:
+        c = _truthy(_expr(node.args[0], env, where))
+        (a, ta), (b, tb) = _expr(node.args[1], env, where), _expr(node.args[2], env, where)
+        if ta == tb:
+            return ('(if %s then %s else %s)' % (c, a, b), ta)
+    raise TranslateError('%s: expression `%s` is outside the translated fragment' % (where, _short(node)))
+
+
+def _paren(s):
+    return s if s.startswith('(') else '(%s)' % s
+
+
+def _define(out, name, params, node, env, where, want):
+    """Definition name params : want := <node>.  params = [(coq name, coq type)], env maps source atoms to them"""
+    txt, typ = _expr(node, env, where)
+    if want == 'bool' and typ == 'Z':
+        txt, typ = _truthy((txt, typ)), 'bool'
+    if typ != want:
+        raise TranslateError('%s: `%s` is not of type %s' % (where, _short(node), want))
+    out.append('(* %s: %s *)' % (where, _short(node)))
+    out.append('Definition %s %s : %s := %s.' % (name, ' '.join('(%s : %s)' % p for p in params), want, txt))
+
+
+def Z(*names):
+    return [(n, 'Z') for n in names]
+
+
+# ----------------------------------------------------------------------------- items
+
+def item_lazy_indexer(repo, out):
+    rel = 'katdal/lazy_indexer.py'
+    for cls, nm, tpl in (('LazyTransform', '__init__', T.LAZY_TRANSFORM_INIT), ('LazyTransform', '__call__', T.LAZY_TRANSFORM_CALL),
+                         ('LazyIndexer', '__init__', T.LAZY_INIT), ('LazyIndexer', '__len__', T.LAZY_LEN),
+                         ('LazyIndexer', '__iter__', T.LAZY_ITER), ('LazyIndexer', 'shape', T.LAZY_SHAPE)):
+        _match(repo, rel, cls, nm, tpl)
+    h = _match(repo, rel, 'LazyIndexer', '__getitem__', T.LAZY_GETITEM)
+    w = rel + ':LazyIndexer.__getitem__'
+    part = []
+    d = {'np.diff(dim_keep)': ('d', 'Z')}
+    _define(part, 'lazy_diff_rejected', Z('d'), h['__H1__'], d, w, 'bool')
+    _define(part, 'lazy_out_of_range', Z('first', 'last', 'dim_len'), h['__H2__'],
+            {'dim_keep[0]': ('first', 'Z'), 'dim_keep[-1]': ('last', 'Z'), 'dim_len': ('dim_len', 'Z')}, w, 'bool')
+    _define(part, 'lazy_jump', Z('d'), h['__H3__'], d, w, 'bool')
+    _dense_threshold(part, h['__H4__'], w)
+    # one step of the dtype fold: `transform.dtype if transform.dtype is not None else dtype`
+    h5 = _match(repo, rel, 'LazyIndexer', 'dtype', T.LAZY_DTYPE)['__H5__']
+    w5 = rel + ':LazyIndexer.dtype'
+    if not (isinstance(h5, ast.IfExp) and isinstance(h5.test, ast.Compare) and len(h5.test.ops) == 1
+            and isinstance(h5.test.ops[0], (ast.IsNot, ast.Is)) and ast.unparse(h5.test.left) == 'transform.dtype'
+            and isinstance(h5.test.comparators[0], ast.Constant) and h5.test.comparators[0].value is None):
+        raise TranslateError('%s: step `%s` is not `<a> if transform.dtype is [not] None else <b>`' % (w5, _short(h5)))
+    some, none = (h5.body, h5.orelse) if isinstance(h5.test.ops[0], ast.IsNot) else (h5.orelse, h5.body)
+    env = {'transform.dtype': ('declared', 'Z'), 'dtype': ('dtype', 'Z')}
+    a, ta = _expr(some, env, w5)
+    b, tb = _expr(none, {'dtype': ('dtype', 'Z')}, w5)
+    if ta != 'Z' or tb != 'Z':
+        raise TranslateError('%s: dtype step is not a choice between the declared and the incoming dtype' % w5)
+    part.append('(* %s: %s *)' % (w5, _short(h5)))
+    part.append('Definition lazy_dtype_step (declared : option Z) (dtype : Z) : Z := '
+                'match declared with Some declared => %s | None => %s end.' % (a, b))
+    out += part
+
+
+def _dense_threshold(out, test, where):
+    """len(dim_keep) > <float> * dim_len and len(segments) > <int>  ->  exact fraction and minimum number of segments"""
+    def is_len_of(node, name):
+        return (isinstance(node, ast.Call) and isinstance(node.func, ast.Name) and node.func.id == 'len'
+                and len(node.args) == 1 and isinstance(node.args[0], ast.Name) and node.args[0].id == name)
+    if not (isinstance(test, ast.BoolOp) and isinstance(test.op, ast.And) and len(test.values) == 2):
+        raise TranslateError('%s: dense-selection test is not `... and ...`: %s' % (where, _short(test)))
+    a, b = test.values
+    if not (isinstance(a, ast.Compare) and len(a.ops) == 1 and is_len_of(a.left, 'dim_keep')):
+        raise TranslateError('%s: dense-selection test does not start with len(dim_keep): %s' % (where, _short(test)))
     rhs = a.comparators[0]
     if not (isinstance(a.ops[0], ast.Gt) and isinstance(rhs, ast.BinOp) and isinstance(rhs.op, ast.Mult)
             and isinstance(rhs.left, ast.Constant) and isinstance(rhs.left.value, (int, float))
             and not isinstance(rhs.left.value, bool)
             and isinstance(rhs.right, ast.Name) and rhs.right.id == 'dim_len'):
-        raise TranslateError('%s: dense-selection test is not `len(dim_keep) > c * dim_len`: %s'
-                             % (rel, ast.dump(a)[:160]))
+        raise TranslateError('%s: dense-selection test is not `len(dim_keep) > c * dim_len`: %s' % (where, _short(a)))
     if not (isinstance(b, ast.Compare) and len(b.ops) == 1 and isinstance(b.ops[0], ast.Gt)
-            and _is_len_of(b.left, 'segments') and isinstance(b.comparators[0], ast.Constant)
+            and is_len_of(b.left, 'segments') and isinstance(b.comparators[0], ast.Constant)
             and isinstance(b.comparators[0].value, int) and not isinstance(b.comparators[0].value, bool)):
-        raise TranslateError('%s: dense-selection test is not `... and len(segments) > k`: %s'
-                             % (rel, ast.dump(b)[:160]))
+        raise TranslateError('%s: dense-selection test is not `... and len(segments) > k`: %s' % (where, _short(b)))
     fr = Fraction(repr(rhs.left.value))
     if fr < 0:
-        raise TranslateError('%s: negative dense-selection threshold' % rel)
-    out.append('(* katdal/lazy_indexer.py LazyIndexer.__getitem__: len(dim_keep) > %r * dim_len and len(segments) > %d *)'
-               % (rhs.left.value, b.comparators[0].value))
+        raise TranslateError('%s: negative dense-selection threshold' % where)
+    out.append('(* %s: len(dim_keep) > %r * dim_len and len(segments) > %d *)'
+               % (where, rhs.left.value, b.comparators[0].value))
     out.append('Definition lazy_dense_num : Z := (%d)%%Z.' % fr.numerator)
     out.append('Definition lazy_dense_den : Z := (%d)%%Z.' % fr.denominator)
     out.append('Definition lazy_dense_min_segments : Z := (%d)%%Z.' % b.comparators[0].value)
 
 
-ITEMS = [item_lazy_threshold]
+def item_concat_indexer(repo, out):
+    rel = 'katdal/concatdata.py'
+    cls = 'ConcatenatedLazyIndexer'
+    _match(repo, rel, cls, '_initial_shape', T.CONCAT_INITIAL_SHAPE)
+    _match(repo, rel, cls, '_initial_dtype', T.CONCAT_INITIAL_DTYPE)
+    part = []
+    h = _match(repo, rel, cls, '__init__', T.CONCAT_INIT)
+    _define(part, 'concat_part_kept', Z('len0'), h['__H6__'], {'indexer.shape[0]': ('len0', 'Z')},
+            rel + ':%s.__init__' % cls, 'bool')
+    h = _match(repo, rel, cls, '__getitem__', T.CONCAT_GETITEM)
+    w = rel + ':%s.__getitem__' % cls
+    # find_indexer: indexer_starts.searchsorted(index, side=<'right'|'left'>) combined with integers
+    calls = [n for n in ast.walk(h['__H7__']) if isinstance(n, ast.Call)]
+    if not (len(calls) == 1 and ast.unparse(calls[0].func) == 'indexer_starts.searchsorted'
+            and [ast.unparse(a) for a in calls[0].args] == ['index'] and len(calls[0].keywords) <= 1
+            and all(k.arg == 'side' and isinstance(k.value, ast.Constant) and k.value.value in ('left', 'right')
+                    for k in calls[0].keywords)):
+        raise TranslateError('%s: find_indexer is not built on indexer_starts.searchsorted(index, side=...): %s'
+                             % (w, _short(h['__H7__'])))
+    side = calls[0].keywords[0].value.value if calls[0].keywords else 'left'
+    part.append("(* %s: searchsorted(index, side='%s') counts the starts s with s %s index *)"
+                % (w, side, '<=' if side == 'right' else '<'))
+    part.append('Definition concat_searchsorted_before (s index : Z) : bool := (s %s index).'
+                % ('<=?' if side == 'right' else '<?'))
+    _define(part, 'concat_find_indexer', Z('count'), h['__H7__'], {ast.unparse(calls[0]): ('count', 'Z')}, w, 'Z')
+    head = {'keep_head': ('z', 'Z'), 'len(self)': ('total', 'Z'), 'indexer_starts[ind]': ('off', 'Z'),
+            'indexer_starts[indexers]': ('off', 'Z')}
+    _define(part, 'concat_norm_scalar', Z('total', 'z'), h['__H8__'], head, w, 'Z')
+    _define(part, 'concat_scalar_rejected', Z('total', 'z'), h['__H9__'], head, w, 'bool')
+    _define(part, 'concat_local_scalar', Z('z', 'off'), h['__H10__'], head, w, 'Z')
+    sl = {'start': ('start', 'Z'), 'stop': ('stop', 'Z'), 'stride': ('stride', 'Z'), 'indexer_starts[ind]': ('off', 'Z')}
+    _define(part, 'concat_stride_rejected', Z('stride'), h['__H11__'], sl, w, 'bool')
+    fi = {'find_indexer(start)': ('ind_start', 'Z'), 'find_indexer(stop)': ('ind_stop', 'Z')}
+    _define(part, 'concat_first_indexer', Z('ind_start', 'ind_stop'), h['__H12__'], fi, w, 'Z')
+    _define(part, 'concat_end_indexer', Z('ind_start', 'ind_stop'), h['__H13__'], fi, w, 'Z')
+    _define(part, 'concat_chunk_start', Z('start', 'stop', 'off', 'stride'), h['__H14__'], sl, w, 'Z')
+    _define(part, 'concat_chunk_stop', Z('start', 'stop', 'off', 'stride'), h['__H15__'], sl, w, 'Z')
+    _define(part, 'concat_chunk_skipped', [('have_chunks', 'bool')] + Z('chunk_start', 'chunk_stop'), h['__H16__'],
+            {'chunks': ('have_chunks', 'bool'), 'chunk_start': ('chunk_start', 'Z'), 'chunk_stop': ('chunk_stop', 'Z')},
+            w, 'bool')
+    _define(part, 'concat_norm_list', Z('total', 'z'), h['__H17__'], head, w, 'Z')
+    _define(part, 'concat_local_list', Z('z', 'off'), h['__H18__'], head, w, 'Z')
+    out += part
+
+
+ITEMS = [item_lazy_indexer, item_concat_indexer]
